@@ -217,16 +217,22 @@ def alias_program(rng):
         pre = ['TYPE rr', '  g AS LONG', f'  h AS {t}', '  i AS LONG', 'END TYPE', 'DIM rec AS rr']
         a = 'rec.h'
     depth = rng.randint(1, 3)
+    if t == 'STRING':
+        idforms = [f'{a} + ""', f'"" + {a}']
+    else:
+        idforms = rng.sample([f'{a} + 0', f'0 + {a}', f'+{a}', f'1 * {a}', f'{a} * 1', f'{a} - 0', f'-(-{a})', f'{a} \\ 1' if t in ('INTEGER', 'LONG') else f'{a} / 1'], 4)
     src = pre + [
         f'{a} = {lit(1)}',
         f'nb1& = 111',
         f'CALL setit({a})', pr(a),                 # by reference: changed to 2
         f'CALL setit(({a}))', pr(a),               # parenthesised: copy, still 2
+    ] + [line for form in idforms for line in (f'CALL setit3({form})', pr(a))] + [   # an expression argument aliases nothing
         f'CALL rec1({depth})',
         'CALL cnt', 'CALL cnt', 'CALL cnt',
         'PRINT nb1&',
         'END',
         f'SUB setit(p{tc})', f'  p{tc} = {lit(2)}', 'END SUB',
+        f'SUB setit3(p{tc})', f'  p{tc} = {lit(3)}', 'END SUB',
         'SUB rec1(d%)',
         '  lcl& = lcl& + d%',                      # fresh local: 0 + d
         '  IF d% > 1 THEN CALL rec1(d% - 1)',
@@ -234,7 +240,7 @@ def alias_program(rng):
         'END SUB',
         'SUB cnt STATIC', '  c& = c& + 1', '  PRINT c&', 'END SUB',
     ]
-    exp = show(2) + show(2)
+    exp = show(2) + show(2) + show(2) * len(idforms)
     for d in range(1, depth + 1):
         exp += format_number(d, CT.LONG) + ' \r\n'
     for c in (1, 2, 3):
